@@ -10,12 +10,45 @@ Lib/DecArith.vos Lib/DecArith.vok Lib/DecArith.required_vos: Lib/DecArith.v Lib/
 Lib/DecFacts.vo Lib/DecFacts.glob Lib/DecFacts.v.beautified Lib/DecFacts.required_vo: Lib/DecFacts.v Lib/Base.vo Lib/DecArith.vo
 Lib/DecFacts.vio: Lib/DecFacts.v Lib/Base.vio Lib/DecArith.vio
 Lib/DecFacts.vos Lib/DecFacts.vok Lib/DecFacts.required_vos: Lib/DecFacts.v Lib/Base.vos Lib/DecArith.vos
+Model/HookLang.vo Model/HookLang.glob Model/HookLang.v.beautified Model/HookLang.required_vo: Model/HookLang.v 
+Model/HookLang.vio: Model/HookLang.v 
+Model/HookLang.vos Model/HookLang.vok Model/HookLang.required_vos: Model/HookLang.v 
+Model/Hooks.vo Model/Hooks.glob Model/Hooks.v.beautified Model/Hooks.required_vo: Model/Hooks.v Lib/Base.vo Lib/Atomic.vo Model/HookLang.vo Gen/HookTable.vo
+Model/Hooks.vio: Model/Hooks.v Lib/Base.vio Lib/Atomic.vio Model/HookLang.vio Gen/HookTable.vio
+Model/Hooks.vos Model/Hooks.vok Model/Hooks.required_vos: Model/Hooks.v Lib/Base.vos Lib/Atomic.vos Model/HookLang.vos Gen/HookTable.vos
+Model/MapSites.vo Model/MapSites.glob Model/MapSites.v.beautified Model/MapSites.required_vo: Model/MapSites.v Lib/Base.vo Lib/DecArith.vo Gen/MapRangeTable.vo Gen/AmbientTable.vo
+Model/MapSites.vio: Model/MapSites.v Lib/Base.vio Lib/DecArith.vio Gen/MapRangeTable.vio Gen/AmbientTable.vio
+Model/MapSites.vos Model/MapSites.vok Model/MapSites.required_vos: Model/MapSites.v Lib/Base.vos Lib/DecArith.vos Gen/MapRangeTable.vos Gen/AmbientTable.vos
 Model/Market.vo Model/Market.glob Model/Market.v.beautified Model/Market.required_vo: Model/Market.v Lib/Base.vo
 Model/Market.vio: Model/Market.v Lib/Base.vio
 Model/Market.vos Model/Market.vok Model/Market.required_vos: Model/Market.v Lib/Base.vos
+Model/Sweep.vo Model/Sweep.glob Model/Sweep.v.beautified Model/Sweep.required_vo: Model/Sweep.v Lib/Base.vo
+Model/Sweep.vio: Model/Sweep.v Lib/Base.vio
+Model/Sweep.vos Model/Sweep.vok Model/Sweep.required_vos: Model/Sweep.v Lib/Base.vos
+Proofs/HooksProofs.vo Proofs/HooksProofs.glob Proofs/HooksProofs.v.beautified Proofs/HooksProofs.required_vo: Proofs/HooksProofs.v Lib/Base.vo Lib/Atomic.vo Model/HookLang.vo Gen/HookTable.vo Model/Hooks.vo Model/Sweep.vo
+Proofs/HooksProofs.vio: Proofs/HooksProofs.v Lib/Base.vio Lib/Atomic.vio Model/HookLang.vio Gen/HookTable.vio Model/Hooks.vio Model/Sweep.vio
+Proofs/HooksProofs.vos Proofs/HooksProofs.vok Proofs/HooksProofs.required_vos: Proofs/HooksProofs.v Lib/Base.vos Lib/Atomic.vos Model/HookLang.vos Gen/HookTable.vos Model/Hooks.vos Model/Sweep.vos
+Proofs/MapSitesProofs.vo Proofs/MapSitesProofs.glob Proofs/MapSitesProofs.v.beautified Proofs/MapSitesProofs.required_vo: Proofs/MapSitesProofs.v Lib/Base.vo Lib/DecArith.vo Gen/MapRangeTable.vo Gen/AmbientTable.vo Model/MapSites.vo
+Proofs/MapSitesProofs.vio: Proofs/MapSitesProofs.v Lib/Base.vio Lib/DecArith.vio Gen/MapRangeTable.vio Gen/AmbientTable.vio Model/MapSites.vio
+Proofs/MapSitesProofs.vos Proofs/MapSitesProofs.vok Proofs/MapSitesProofs.required_vos: Proofs/MapSitesProofs.v Lib/Base.vos Lib/DecArith.vos Gen/MapRangeTable.vos Gen/AmbientTable.vos Model/MapSites.vos
 Proofs/MarketProofs.vo Proofs/MarketProofs.glob Proofs/MarketProofs.v.beautified Proofs/MarketProofs.required_vo: Proofs/MarketProofs.v Lib/Base.vo Model/Market.vo
 Proofs/MarketProofs.vio: Proofs/MarketProofs.v Lib/Base.vio Model/Market.vio
 Proofs/MarketProofs.vos Proofs/MarketProofs.vok Proofs/MarketProofs.required_vos: Proofs/MarketProofs.v Lib/Base.vos Model/Market.vos
+Gen/AmbientTable.vo Gen/AmbientTable.glob Gen/AmbientTable.v.beautified Gen/AmbientTable.required_vo: Gen/AmbientTable.v 
+Gen/AmbientTable.vio: Gen/AmbientTable.v 
+Gen/AmbientTable.vos Gen/AmbientTable.vok Gen/AmbientTable.required_vos: Gen/AmbientTable.v 
+Gen/HookTable.vo Gen/HookTable.glob Gen/HookTable.v.beautified Gen/HookTable.required_vo: Gen/HookTable.v Model/HookLang.vo
+Gen/HookTable.vio: Gen/HookTable.v Model/HookLang.vio
+Gen/HookTable.vos Gen/HookTable.vok Gen/HookTable.required_vos: Gen/HookTable.v Model/HookLang.vos
+Gen/MapRangeTable.vo Gen/MapRangeTable.glob Gen/MapRangeTable.v.beautified Gen/MapRangeTable.required_vo: Gen/MapRangeTable.v 
+Gen/MapRangeTable.vio: Gen/MapRangeTable.v 
+Gen/MapRangeTable.vos Gen/MapRangeTable.vok Gen/MapRangeTable.required_vos: Gen/MapRangeTable.v 
+Properties/C15.vo Properties/C15.glob Properties/C15.v.beautified Properties/C15.required_vo: Properties/C15.v Lib/Base.vo Lib/Atomic.vo Model/HookLang.vo Gen/HookTable.vo Model/Hooks.vo Model/Sweep.vo Model/Market.vo Proofs/HooksProofs.vo Proofs/MarketProofs.vo
+Properties/C15.vio: Properties/C15.v Lib/Base.vio Lib/Atomic.vio Model/HookLang.vio Gen/HookTable.vio Model/Hooks.vio Model/Sweep.vio Model/Market.vio Proofs/HooksProofs.vio Proofs/MarketProofs.vio
+Properties/C15.vos Properties/C15.vok Properties/C15.required_vos: Properties/C15.v Lib/Base.vos Lib/Atomic.vos Model/HookLang.vos Gen/HookTable.vos Model/Hooks.vos Model/Sweep.vos Model/Market.vos Proofs/HooksProofs.vos Proofs/MarketProofs.vos
+Properties/C16.vo Properties/C16.glob Properties/C16.v.beautified Properties/C16.required_vo: Properties/C16.v Lib/Base.vo Lib/DecArith.vo Gen/MapRangeTable.vo Gen/AmbientTable.vo Model/MapSites.vo Proofs/MapSitesProofs.vo
+Properties/C16.vio: Properties/C16.v Lib/Base.vio Lib/DecArith.vio Gen/MapRangeTable.vio Gen/AmbientTable.vio Model/MapSites.vio Proofs/MapSitesProofs.vio
+Properties/C16.vos Properties/C16.vok Properties/C16.required_vos: Properties/C16.v Lib/Base.vos Lib/DecArith.vos Gen/MapRangeTable.vos Gen/AmbientTable.vos Model/MapSites.vos Proofs/MapSitesProofs.vos
 Properties/C17.vo Properties/C17.glob Properties/C17.v.beautified Properties/C17.required_vo: Properties/C17.v Lib/Base.vo Model/Market.vo Proofs/MarketProofs.vo
 Properties/C17.vio: Properties/C17.v Lib/Base.vio Model/Market.vio Proofs/MarketProofs.vio
 Properties/C17.vos Properties/C17.vok Properties/C17.required_vos: Properties/C17.v Lib/Base.vos Model/Market.vos Proofs/MarketProofs.vos
